@@ -113,13 +113,16 @@ def literal_free_twin(prog):
     return twin, values
 
 
-def close(a, b):
+def close(a, b, sens=0.0):
+    """Equal to floating-point rounding: 1e-12 relative, widened by the measured conditioning of the run (`sens` = relative spread
+    of the Python result under a 1e-13 relative perturbation of the inputs; well-conditioned runs have sens ~ 1e-13)."""
     a, b = np.asarray(a, dtype=float), np.asarray(b, dtype=float)
     if a.shape != b.shape:
         return False
+    tol = 1e-12 + 10.0 * max(0.0, sens)
     with np.errstate(all='ignore'):
         scale = np.maximum(1.0, np.maximum(np.abs(a), np.abs(b)))
-        return bool(np.all((np.abs(a - b) <= 1e-12 * scale) | (np.isnan(a) & np.isnan(b)) | (a == b)))
+        return bool(np.all((np.abs(a - b) <= tol * scale) | (np.isnan(a) & np.isnan(b)) | (a == b)))
 
 
 def option_sets(rng, n, L, D, count):
@@ -220,6 +223,18 @@ def compare_program(symbols_text, so, datasets, optsets, names, bopts=None):
             with np.errstate(invalid='raise', divide='raise', over='raise', under='ignore'):
                 rprobe = run_side(probe, o, trap=True)
             fp_trapped = rprobe != rp
+            # conditioning probe: the same call on inputs perturbed by 1e-13 (relative).  An iteration that amplifies such a
+            # perturbation amplifies the two back-ends' different roundings just as much: the spread it produces scales the
+            # tolerance of the value comparison ("to floating-point rounding"); if it changes the outcome, the run is not compared
+            pdata = {k: np.asarray(v, dtype=float) * (1.0 + 1e-13 * (1 if i % 2 else -1)) for i, (k, v) in enumerate(data.items())}
+            cond = Rec(range(n), **pdata)
+            if o.get('check'):
+                cond.check = list(o['check'])
+            rcond = run_side(cond, o)
+            with np.errstate(all='ignore'):
+                spread = np.abs(cond.values - p.values) / np.maximum(1.0, np.maximum(np.abs(cond.values), np.abs(p.values)))
+                sens = float(np.nanmax(spread)) if spread.size and np.any(np.isfinite(spread)) else 0.0
+            unstable = (rcond[:2] != rp[:2]) or ''.join(cond.status) != ''.join(p.status) or cond.iterations.tolist() != p.iterations.tolist() or not np.isfinite(sens)
             passes = p.__dict__.get('v_checks', [])
             # borderline convergence: a pass whose largest move is within 1e-6 (relative) of tol
             borderline = False
@@ -232,7 +247,7 @@ def compare_program(symbols_text, so, datasets, optsets, names, bopts=None):
                         borderline = True
                 prev = cur
             obs.append(dict(o=o, di=di, rp=rp, rf=rf, pv=p.values.copy(), fv=f.values.copy(), ps=''.join(p.status), fs=''.join(f.status),
-                            pi=p.iterations.tolist(), fi=f.iterations.tolist(), borderline=borderline, py_finite=bool(np.all(np.isfinite(p.values))) and not p.__dict__.get('v_nonfinite_pass', False) and not fp_trapped))
+                            pi=p.iterations.tolist(), fi=f.iterations.tolist(), borderline=borderline or unstable, sens=sens, py_finite=bool(np.all(np.isfinite(p.values))) and not p.__dict__.get('v_nonfinite_pass', False) and not fp_trapped))
     return obs
 
 
@@ -327,6 +342,9 @@ def one_program(ctx, prog, rng, workdir, tag, has_literals, depth=0, fixed=None)
         ctx.violation('sanitizer-report', f'sanitizer output while running {script!r}: {res[2][-600:]}', case)
         return 'fail'
     outcome = 'ok'
+    # hand-made cases in binary fractions (every value and every move exactly representable): both back-ends compute them
+    # without rounding, so nothing is excused as borderline or ill-conditioned - `< tol` versus `<= tol` is decided here
+    exact = bool(fixed is not None and fixed.get('exact'))
     for ob in res[1]:
         o = ob['o']
         ctx.count('fortran_calls')
@@ -350,11 +368,13 @@ def one_program(ctx, prog, rng, workdir, tag, has_literals, depth=0, fixed=None)
             bad = ('fortran-outcome', f'Python -> {rp}, Fortran -> {rf}')
         elif rp[0] == 'exc' and rp[1] != rf[1]:
             bad = ('fortran-exception-class', f'Python raised {rp[1]} ({rp[2]}), Fortran wrapper raised {rf[1]} ({rf[2]})')
-        elif not close(ob['pv'], ob['fv']):
+        elif ob['borderline'] and not exact and not close(ob['pv'], ob['fv'], ob.get('sens', 0.0)):
+            ctx.count('ill_conditioned_or_borderline_run_not_compared')
+        elif not close(ob['pv'], ob['fv'], 0.0 if exact else ob.get('sens', 0.0)):
             diff = np.abs(ob['pv'] - ob['fv'])
             i, j = np.unravel_index(np.nanargmax(diff), diff.shape)
             bad = ('fortran-values', f'{names[i]}[{j}]: Python {ob["pv"][i, j]!r}, Fortran {ob["fv"][i, j]!r}')
-        elif ob['borderline']:
+        elif ob['borderline'] and not exact:
             ctx.count('borderline_convergence_not_compared')
         elif rp[0] == 'ret' and rp[1] != rf[1]:
             bad = ('fortran-return-value', f'Python returned {rp[1]!r}, Fortran {rf[1]!r}')
@@ -455,7 +475,7 @@ def exact_tolerance(ctx, rng, workdir):
     prog = P([E(V('Y'), B('+', V('Y'), V('d', 'param')))])
     script = gen.render_program(prog)
     for d, tol, it in ((0.5, 0.5, 3), (0.25, 0.25, 2), (0.5, 0.75, 4), (0.125, 0.125, 1)):
-        fixed = {'data': {'Y': [1.0, 2.0, 3.0], 'd': [d, d, d]},
+        fixed = {'exact': True, 'data': {'Y': [1.0, 2.0, 3.0], 'd': [d, d, d]},
                  'options': dict(entry='solve_t', t=1, min_iter=0, max_iter=it, tol=tol, failures='ignore', errors='raise', offset=0)}
         ctx.evaluation((script, d, tol, it), nontrivial=True)
         one_program(ctx, prog, rng, workdir, f'tol{ctx.shard}', has_literals=False, fixed=fixed)
